@@ -533,6 +533,26 @@ class BoolReach:
 
     def _step(self, bb, vals, env):
         body = self.body
+        blk = body.blocks[bb]
+        vals = self._run_stmts(bb, vals, env)
+        t = blk["t"]
+        nxt = self.succs[bb]
+        if t["k"] == "call" and t.get("dest") is not None and not t["dest"]["p"]:
+            at = self.atom_of("call", bb, t)
+            if at is not None and at[0] in env:
+                vals[t["dest"]["l"]] = env[at[0]] != at[1]
+            else:
+                vals.pop(t["dest"]["l"], None)
+        elif t["k"] == "switch":
+            p = t["discr"].get("copy") or t["discr"].get("move")
+            if p is not None and not p["p"] and vals.get(p["l"]) is not None:
+                v = 1 if vals[p["l"]] else 0
+                hit = [b for val, b in t["targets"] if val == v]
+                nxt = [hit[0]] if hit else [t["otherwise"]]
+        return [(n, tuple(sorted(vals.items()))) for n in nxt]
+
+    def _run_stmts(self, bb, vals, env):
+        body = self.body
         vals = dict(vals)
         blk = body.blocks[bb]
 
@@ -575,21 +595,7 @@ class BoolReach:
                 vals.pop(dst["l"], None)
             else:
                 vals[dst["l"]] = v
-        t = blk["t"]
-        nxt = self.succs[bb]
-        if t["k"] == "call" and t.get("dest") is not None and not t["dest"]["p"]:
-            at = self.atom_of("call", bb, t)
-            if at is not None and at[0] in env:
-                vals[t["dest"]["l"]] = env[at[0]] != at[1]
-            else:
-                vals.pop(t["dest"]["l"], None)
-        elif t["k"] == "switch":
-            p = t["discr"].get("copy") or t["discr"].get("move")
-            if p is not None and not p["p"] and vals.get(p["l"]) is not None:
-                v = 1 if vals[p["l"]] else 0
-                hit = [b for val, b in t["targets"] if val == v]
-                nxt = [hit[0]] if hit else [t["otherwise"]]
-        return [(n, tuple(sorted(vals.items()))) for n in nxt]
+        return vals
 
     def blocks(self, start_bb, env, avoid=(), avoid_edges=(), init=None):
         avoid = set(avoid)
@@ -607,3 +613,22 @@ class BoolReach:
                     seen.add(s)
                     work.append(s)
         return {bb for bb, _ in seen}
+
+    def return_values(self, start_bb, env, local=0):
+        """Values the boolean `local` can hold when a `return` is reached from start_bb under `env`: subset of {True, False, None}
+        (None = not determined by the named facts)."""
+        st0 = (start_bb, ())
+        seen = {st0}
+        work = [st0]
+        out = set()
+        while work:
+            bb, vals = work.pop()
+            if self.body.blocks[bb]["t"]["k"] == "return":
+                out.add(self._run_stmts(bb, vals, env).get(local))
+                continue
+            for n, nv in self._step(bb, vals, env):
+                s = (n, nv)
+                if s not in seen:
+                    seen.add(s)
+                    work.append(s)
+        return out
